@@ -188,6 +188,14 @@ func checkSolve(c solveCase) *vk.Failure {
 		func(dst *mat.VecDense, bv mat.Vector) error { return dst.SolveVec(a, bv) })
 	vk.Class("solve/" + label)
 	desc := fmt.Sprintf("form=%s %d×%d class=%s transA=%v a=%s %s", c.Form, or, oc, c.Class, c.TransA, kindNames[ak], label)
+	if or == oc && (c.Form == "general" || c.Form == "lu") {
+		var lu mat.LU
+		lu.Factorize(denseOf(g.A))
+		if fc := errIffCond("square", err, lu.Cond()); fc != nil {
+			fc.Msg += " (" + desc + ")"
+			return fc
+		}
+	}
 	if singular {
 		cv, ok := condOf(err)
 		if !ok || !math.IsInf(cv, 1) {
